@@ -3,7 +3,8 @@
 (* RegisterSafeType (internal/rfmt/registry.go) as state: the registry is  *)
 (* a set of types that only grows; a value is printed as safe exactly if   *)
 (* its type is in the set AT THAT MOMENT -- whatever was registered        *)
-(* before or after, in whatever order, of whatever kind.  (C05 quantifies  *)
+(* before or after, in whatever order, of whatever kind; a pointer type and *)
+(* its element type are two types.  (C05 quantifies                        *)
 (* over all sets of registered types.)  TLC enumerates every order of      *)
 (* registering every subset of Types; each behaviour is replayed in a      *)
 (* process of its own (registrations cannot be undone), which prints       *)
@@ -21,11 +22,12 @@ Next == \E t \in Types : Register(t)
 Spec == Init /\ [][Next]_vars
 
 \* what a probe of type t shows in the current state
-Safe(t) == t \in reg
+\* (a pointer shows its pointee: in the clear if the pointer type or the pointee's type is registered)
+Safe(t) == t \in reg \/ (t = "ptrstruct" /\ "struct" \in reg)
 
 InvGrowOnly == reg = {order[i] : i \in 1..Len(order)}
-InvProbe    == \A t \in Types : Safe(t) <=> (\E i \in 1..Len(order) : order[i] = t)
+InvProbe    == \A t \in Types : Safe(t) <=> (\E i \in 1..Len(order) : order[i] = t \/ (t = "ptrstruct" /\ order[i] = "struct"))
 
 \* one line per behaviour prefix: the registrations so far and what each probe must show
-Emit == EmitOn => PrintT(ToJson([order |-> order', safe |-> [t \in Types |-> t \in reg']]))
+Emit == EmitOn => PrintT(ToJson([order |-> order', safe |-> [t \in Types |-> t \in reg' \/ (t = "ptrstruct" /\ "struct" \in reg')]]))
 =============================================================================
